@@ -66,7 +66,7 @@ def run(ctx):
                 "flat/sub/nested directories x import forms) + seeded projects, seeded control-flow programs. Strings: "
                 "%s values of length <= 4 over {\" \\ space TAB LF CR n r t é} that a literal can denote (not ending "
                 "in a backslash), escaped rendering + raw rendering for TAB/LF/CR, as print operand, map key and "
-                "assert-== operand; batches of 200 bisected to single literals; each literal's decoded value is "
+                "assert-== operand; batches of 200 bisected to single literals (one evaluation = one (value, rendering, role) case decided, up to 200 share one pair of executions); each literal's decoded value is "
                 "checked against the intended value in the dump of `run`. Distinct non-trivial = distinct program "
                 "with >= 5 instructions compared, or distinct (role, string) with >= 1 character other than n/r/t."
                 % ("all 10 000" if not ctx.quick else "all 1 000 of length <= 3 and a seeded sample of 400 of length 4 among the"))
